@@ -265,7 +265,7 @@ func genC08(t *testing.T) {
 	for i := 0; i < nr; i++ {
 		r := common.RngN("c08", uint64(i))
 		ns := 1 + r.IntN(3)
-		c := &caseT{Cap: r.IntN(9), Senders: ns}
+		c := &caseT{Cap: wide(r, 9, 17, 64, 256), Senders: ns}
 		var seqs [][]string
 		total := 0
 		for s := 0; s < ns; s++ {
